@@ -1,4 +1,5 @@
-import PoolModel.Util
-import PoolModel.Generated.Consts
 import PoolModel.C09
 import PoolModel.C09Drv
+import PoolModel.Generated.Consts
+import PoolModel.Sha256
+import PoolModel.Util
